@@ -44,11 +44,16 @@ func GetNodePreferableGpuForSharing(fittingGPUsOnNode []string, node *node_info.
 	}
 
 	deviceCounts := pod.ResReq.GetNumOfGpuDevices()
+	wholeGpusTaken := 0
 	for _, gpuIdx := range fittingGPUsOnNode {
 		if gpuIdx == pod_info.WholeGpuIndicator {
 			if wholeGpuForSharing := findGpuForSharingOnNode(pod, node, isPipelineOnly); wholeGpuForSharing != nil {
+				// Only as many new devices as the node has idle GPUs can be used right away; any
+				// further whole GPU offered for this pod is one that is still being released.
+				wholeGpusTaken++
 				nodeGpusSharing.IsReleasing =
-					nodeGpusSharing.IsReleasing || wholeGpuForSharing.IsReleasing
+					nodeGpusSharing.IsReleasing || wholeGpuForSharing.IsReleasing ||
+						float64(wholeGpusTaken) > node.Idle.GPUs()
 				nodeGpusSharing.Groups = append(nodeGpusSharing.Groups, wholeGpuForSharing.Groups...)
 			}
 		} else {
